@@ -40,7 +40,7 @@ func (e *enc) lookupLocal(fr *frame, h *ssa.BasicBlock, phiVals map[*ssa.Phi]Ter
 				return e.mkT(t, phi.Type()), true
 			}
 		}
-		if a, isAlloc := v.(*ssa.Alloc); isAlloc {
+		if a, isAlloc := v.(*ssa.Alloc); isAlloc && a.Comment == name {
 			if l, ok := fr.loc[a]; ok && l.ty != nil {
 				return e.mkT(e.readIn(mem, l), l.ty), true
 			}
@@ -266,6 +266,22 @@ func (e *enc) loopEnv(fr *frame, h *ssa.BasicBlock, phiVals map[*ssa.Phi]Term, m
 	return env
 }
 
+// paramCopyCell: `t0 = local T (p); *t0 = p` — the cell a struct parameter is copied into at function entry
+func paramCopyCell(p *ssa.Parameter) *ssa.Alloc {
+	refs := p.Referrers()
+	if refs == nil {
+		return nil
+	}
+	for _, r := range *refs {
+		if st, ok := r.(*ssa.Store); ok && st.Val == ssa.Value(p) {
+			if a, ok := st.Addr.(*ssa.Alloc); ok && a.Comment == p.Name() {
+				return a
+			}
+		}
+	}
+	return nil
+}
+
 // fnEnv: environment for clauses of the frame's own function (parameters by name)
 func (e *enc) fnEnv(fr *frame, mem map[string]Term) *specEnv {
 	env := &specEnv{e: e, fr: fr, vars: map[string]tval{}, ptrLoc: map[string]*Loc{}, mem: mem, oldMem: fr.entryMem}
@@ -281,6 +297,14 @@ func (e *enc) fnEnv(fr *frame, mem map[string]Term) *specEnv {
 		if _, isMap := p.Type().Underlying().(*types.Map); isMap {
 			if l, ok := fr.prov[p]; ok {
 				env.varLoc[p.Name()] = l
+			}
+		}
+		// a struct parameter that the function copies into a cell (its fields are assigned / its maps updated): the cell is the variable
+		if _, isStruct := p.Type().Underlying().(*types.Struct); isStruct {
+			if a := paramCopyCell(p); a != nil {
+				if l, ok := fr.loc[a]; ok && l.ty != nil {
+					env.varLoc[p.Name()] = l
+				}
 			}
 		}
 	}
@@ -490,8 +514,13 @@ func (e *enc) checkFrame(fr *frame, ct *Contract) {
 	var missing []string
 	// parameters updated in the body (maps are references, pointers are dereferenced) must be declared too
 	declParam := map[string]bool{}
+	declField := map[string]bool{}
 	for _, m := range ct.Modifies {
 		switch n := m.E.(type) {
+		case *SField:
+			if id, ok := n.X.(*SIdent); ok {
+				declField[id.Name+"."+n.Name] = true
+			}
 		case *SIdent:
 			declParam[n.Name] = true
 		case *SUnary:
@@ -506,6 +535,22 @@ func (e *enc) checkFrame(fr *frame, ct *Contract) {
 			case *ssa.MapUpdate:
 				if p, ok := x.Map.(*ssa.Parameter); ok && !declParam[p.Name()] {
 					missing = append(missing, "map parameter "+p.Name())
+				}
+				// m := param.Field (a map inside a struct passed by value): shared with the caller
+				if u, ok := x.Map.(*ssa.UnOp); ok {
+					if fa, ok := u.X.(*ssa.FieldAddr); ok {
+						if a, ok := fa.X.(*ssa.Alloc); ok {
+							for _, p := range fr.fn.Params {
+								if paramCopyCell(p) == a {
+									st := a.Type().(*types.Pointer).Elem().Underlying().(*types.Struct)
+									fname := p.Name() + "." + st.Field(fa.Field).Name()
+									if !declField[fname] {
+										missing = append(missing, "map field "+fname)
+									}
+								}
+							}
+						}
+					}
 				}
 			case *ssa.Store:
 				if p, ok := rootParam(x.Addr, 0); ok && !declParam["*"+p.Name()] {
@@ -619,6 +664,7 @@ func (e *enc) rangeNext(b *ssa.BasicBlock, x *ssa.Next) {
 	}
 	v := e.define("rv", vs, fmt.Sprintf("(select (val_%s %s) %s)", st.msort, cur, k))
 	e.assumeWF(v, st.mt.Elem(), 1)
+	e.assumeAllocated(v, st.mt.Elem())
 	st.visited = vis
 	fr.tuples[x] = []Term{more, k, v}
 }
